@@ -26,14 +26,10 @@ theorem tError_ne (st : LexState) (p : Nat) : tError st p ≠ .outOfFuel := by
     · split
       · split
         · split
+          · rename_i e he; exact colnoAt_err _ _ _ he
           · simp
-          · split
-            · simp
-            · split
-              · rename_i e he; exact colnoAt_err _ _ _ he
-              · simp
-        · simp
-      · simp
+        · simp [unterminatedMsg]
+      · simp [unterminatedMsg]
     · split
       · simp
       · split <;> simp
@@ -116,7 +112,7 @@ theorem divOrRegex_ne (st : LexState) : divOrRegex st ≠ .error .outOfFuel := b
 /-- a raw step with a token moves `lexpos` forward, inside the text -/
 theorem rawStep_progress {st : LexState} {t : Token} {st1 : LexState} (h : RawStep st (some t) st1) :
     st1.text = st.text ∧ st.lexpos < st1.lexpos ∧ st1.lexpos ≤ st.text.length := by
-  obtain ⟨hf, s, raw, st0, hraw, hl, _⟩ := h
+  obtain ⟨hf, s, raw, st0, hraw, ⟨hl, _, _⟩, _⟩ := h
   have hpos : 0 < raw.value.length := by
     cases hv : raw.value with
     | nil => exact absurd hv hraw.ne
